@@ -77,7 +77,14 @@ func frontOps() []raceOp {
 			_, _ = e.fe.Get(e.ctx, e.keys[i%3], build)
 		}},
 		{"FailoverOf.Get", func(e *raceEnv, i int) { _, _ = e.feOf.Get(e.ctx, e.keys[i%3], buildOf) }},
-		{"Index.AddLabels", func(e *raceEnv, i int) { e.ix.AddLabels([]string{"default", "other"}[i%2], e.keys[i%4], "l1", "l2") }},
+		{"Index.AddLabels", func(e *raceEnv, i int) {
+			e.ix.AddLabels([]string{"default", "other", "failing"}[i%3], e.keys[i%4], "l1", "l2", "lf")
+		}},
+		{"Index.InvalidateFailing", func(e *raceEnv, i int) {
+			// the deleter registered under "failing" is down: the error path puts the unprocessed keys back
+			e.ix.AddLabels("failing", e.keys[i%4], "lf")
+			_, _ = e.ix.InvalidateByLabels(e.ctx, "lf")
+		}},
 		{"Index.AddCache", func(e *raceEnv, i int) { e.ix.AddCache("other", e.b.Raw().(cache.Deleter)) }},
 		{"Index.Invalidate", func(e *raceEnv, i int) { _, _ = e.ix.InvalidateByLabels(e.ctx, "l1", "l2") }},
 		{"Invalidator.Invalidate", func(e *raceEnv, i int) { _ = e.inv.Invalidate(e.ctx) }},
@@ -85,6 +92,10 @@ func frontOps() []raceOp {
 		{"Backend.ExpireAll", func(e *raceEnv, i int) { e.b.ExpireAll(e.ctx) }},
 	}
 }
+
+type downDeleter struct{}
+
+func (downDeleter) Delete(context.Context, []byte) error { return errInjected }
 
 func newRaceEnv(kind string, strategy int) *raceEnv {
 	keys := NewKeyTable()
@@ -139,6 +150,7 @@ func runRaceChild(o Opts) *Result {
 				})
 				e.feOf = cache.NewFailoverOf[int](func(c *cache.FailoverConfigOf[int]) { c.SyncRead = strategy == 1 })
 				e.ix = cache.NewInvalidationIndex(e.b.Raw().(cache.Deleter))
+				e.ix.AddCache("failing", downDeleter{})
 				e.inv = &cache.Invalidator{SkipInterval: time.Microsecond, Callbacks: []func(context.Context){func(context.Context) {}}}
 			}
 			var wg sync.WaitGroup
@@ -297,7 +309,7 @@ func classifyBySite(rep string) string {
 
 func runRace(o Opts) *Result {
 	res := &Result{Rule: "every unordered pair (self-pairs included; quick tier: a seeded two thirds) of a 13-op backend catalogue on each of the three backends under the " +
-		"default and the LFU strategy, and of a 10-op frontend catalogue (Failover, FailoverOf, InvalidationIndex, Invalidator, backend batch ops), 4 goroutines per pair, " +
+		"default and the LFU strategy, and of a 12-op frontend catalogue (Failover, FailoverOf, InvalidationIndex, Invalidator, backend batch ops), 4 goroutines per pair, " +
 		"in child processes built with -race; a report is reduced to the two accessing functions of package cache; " +
 		"non-trivial = a child that completed all its pairs; distinct = distinct child configurations"}
 	self, _ := os.Executable()
